@@ -80,7 +80,7 @@ def request(kind, net, Wroot, g0, g1, extra=""):
             f"{enc_bools(g0)} {enc_bools(g1)} " + (";".join(",".join(map(str, r)) for r in D) or "-"))
 
 
-def impl_values(net, directed, g0, g1, all_reach, heavy=True):
+def impl_values(net, directed, g0, g1, all_reach, heavy=True, variants=True):
     """name -> list of floats (arity 0: 1 value, 1: n values, 2: n*n row-major) | None"""
     from pyunicorn.core import InteractingNetworks
     n = net.N
@@ -142,6 +142,7 @@ def impl_values(net, directed, g0, g1, all_reach, heavy=True):
             put("nsi_eigenvector_centrality@oracle", net.nsi_eigenvector_centrality)
             put("nsi_newman_betweenness@oracle", net.nsi_newman_betweenness)
             put("nsi_arenas_betweenness@oracle", net.nsi_arenas_betweenness)
+        if all_reach and n >= 3 and heavy and variants:
             # every non-default argument pattern of the Arenas-type betweenness
             put("nsi_arenas_betweenness_incl@oracle",
                 lambda: net.nsi_arenas_betweenness(exclude_neighbors=False))
@@ -157,6 +158,16 @@ def impl_values(net, directed, g0, g1, all_reach, heavy=True):
                 lambda: net.nsi_newman_betweenness(add_local_ends=True))
             if not all_reach:
                 put("nsi_newman_betweenness_comp@oracle", net.nsi_newman_betweenness)
+            if not all_reach and variants:
+                # Arenas-type betweenness component by component, every argument pattern
+                put("nsi_arenas_betweenness_comp@oracle", net.nsi_arenas_betweenness)
+                put("nsi_arenas_betweenness_incl_comp@oracle",
+                    lambda: net.nsi_arenas_betweenness(exclude_neighbors=False))
+                put("nsi_arenas_betweenness_twin_comp@oracle",
+                    lambda: net.nsi_arenas_betweenness(stopping_mode="twinness"))
+                put("nsi_arenas_betweenness_incl_twin_comp@oracle",
+                    lambda: net.nsi_arenas_betweenness(exclude_neighbors=False,
+                                                       stopping_mode="twinness"))
         L1 = [i for i in range(n) if g0[i]]
         L2 = [i for i in range(n) if g1[i]]
         if L1 and L2:
@@ -270,7 +281,7 @@ def gen_graphs(ctx):
         out.append((A, False))
     # random larger
     for _ in range(12 if quick else 150):
-        n = rng.randrange(6, 13 if quick else 25)
+        n = rng.randrange(6, 13 if quick else 19)
         p = rng.choice([0.15, 0.3, 0.6])
         directed = rng.random() < 0.3
         A = np.zeros((n, n), dtype=int)
@@ -347,8 +358,10 @@ def run(ctx):
     rng = ctx.rng
     quick = ctx.tier == "quick"
     ctx.rule = ("all labelled undirected graphs on <=4 (thorough: <=5, sampled) nodes, directed on "
-                "<=3 (<=4), random 6..12 (..24) nodes; dyadic positive weights, cube link "
-                "attributes, every node x proportion in {1/4,1/2,3/4} (quick: sampled), random "
+                "<=3 (<=4), random 6..12 (..18) nodes, unions of small components; dyadic positive "
+                "weights (also rescaled by powers of two), cube link attributes, every node x "
+                "proportion in {1/4,1/2,3/4} up to 3 nodes, every node x one proportion up to 5, "
+                "three nodes beyond (quick: sampled), random "
                 "bipartitions; distinct = distinct (graph, weights, node, proportion); non-trivial "
                 "= graph has a link and >= 3 nodes")
     ctx.proofs()
@@ -368,9 +381,10 @@ def run(ctx):
                     if not directed:
                         Wroot[j, i] = Wroot[i, j]
         # extreme-but-exact rescaling of all node weights (every n.s.i. measure is homogeneous)
-        scaled = gi % 7 == 3
-        if scaled:
-            w = w * 2.0 ** rng.choice([-30, 30, -12, 20])
+        scaled = 0          # the power of two all weights are multiplied with (0: none)
+        if gi % 7 == 3:
+            scaled = 2.0 ** rng.choice([-30, 30, -12, 20])
+            w = w * scaled
             ctx.count("weights-rescaled-by-power-of-two")
         A_in, w_in, ka, kw = as_caller_arrays(rng, A, w)
         ctx.count(f"adjacency-as-{ka}")
@@ -386,10 +400,13 @@ def run(ctx):
         nodes = list(range(n))
         if quick and n > 3:
             nodes = rng.sample(nodes, 2)
+        elif n > 5:
+            nodes = rng.sample(nodes, 3)        # thorough: large graphs, three nodes
         props = [Fraction(1, 4), Fraction(1, 2), Fraction(3, 4)]
-        if quick:
-            props = [rng.choice(props)]
-        base_impl = impl_values(net, directed, g0, g1, all_reach)
+        if quick or n > 3:
+            props = [rng.choice(props)]         # (a fresh proportion per graph)
+        variants = quick or gi % 3 == 0
+        base_impl = impl_values(net, directed, g0, g1, all_reach, variants=variants)
         reqs.append(request("eval", net, Wroot, g0, g1, extra=f"{enc_rat(TW)} "))
         meta.append(("eval", gi, None, None, base_impl, n))
         # n.s.i. shortest-path betweenness: definition (Lean) = kernel model (Lean) =
@@ -402,11 +419,14 @@ def run(ctx):
             S[rng.randrange(n)] = True
             T[rng.randrange(n)] = True
             ST.append((S, T))
+            b_bases = []
             for SS, TT in ST:
                 ones = [True] * n
+                b_bases.append(betw_impl(net, SS, TT))
                 reqs.append(request("betw", net, Wroot, SS or ones, TT or ones))
-                meta.append(("betw", gi, None, None, betw_impl(net, SS, TT), n))
+                meta.append(("betw", gi, None, None, b_bases[-1], n))
                 ctx.count("betweenness-correspondence")
+            nsplit = 0
         for v in nodes:
             for p in props:
                 nontriv = n >= 3 and A.sum() > 0
@@ -424,7 +444,7 @@ def run(ctx):
                 sWroot[n, :n] = Wroot[v, :]
                 sD = quiet(sp.path_lengths)
                 s_reach = not np.isinf(sD).any()
-                sp_impl = impl_values(sp, directed, sg0, sg1, s_reach)
+                sp_impl = impl_values(sp, directed, sg0, sg1, s_reach, variants=variants)
                 # ---- oracle: the property on the implementation -------------------------
                 oracle(ctx, base_impl, sp_impl, n, v, p, A, directed, w, Wroot, g0,
                        vec_rel=scaled)
@@ -449,11 +469,15 @@ def run(ctx):
                                     extra=f"{enc_rat(TW)} {v} {enc_rat(p)} "))
                 meta.append(("evalsplit", gi, v, p, sp_impl, n + 1))
                 if do_betw:
-                    for SS, TT in ST:
+                    nsplit += 1
+                    for ist, (SS, TT) in enumerate(ST):
+                        if not quick and (nsplit + ist) % 2:
+                            continue
                         ones, ones1 = [True] * n, [True] * (n + 1)
                         sS = None if SS is None else SS + [SS[v]]
                         sT = None if TT is None else TT + [TT[v]]
-                        b_base, b_spl = betw_impl(net, SS, TT), betw_impl(sp, sS, sT)
+                        b_base, b_spl = b_bases[ist], betw_impl(sp, sS, sT)
+                        ctx.count("betweenness-correspondence-on-split")
                         reqs.append(request("betw", sp, sWroot, sS or ones1, sT or ones1))
                         meta.append(("betw", gi, v, p, b_spl, n + 1))
                         reqs.append(request("betwsplit", net, Wroot, SS or ones, TT or ones,
@@ -483,7 +507,7 @@ def run(ctx):
             h0 = h0 + [h0[v2]]
             h1 = [not x for x in h0]
             r2 = not np.isinf(quiet(sp2.path_lengths)).any()
-            sp2_impl = impl_values(sp2, directed, h0, h1, r2)
+            sp2_impl = impl_values(sp2, directed, h0, h1, r2, variants=variants)
             ex = f"{v1} {enc_rat(p1)} {v2} {enc_rat(p2)} "
             reqs.append(request("split2", net, Wroot, g0, g1, extra=ex))
             try:
@@ -510,7 +534,7 @@ def run(ctx):
                        {"splits": [[v1, str(p1)], [v2, str(p2)]], "group0": g0}, vec_rel=scaled)
         # ---- the original object after its copies were split and queried: nothing changed ---
         if gi % 3 == 0:
-            again = impl_values(net, directed, g0, g1, all_reach)
+            again = impl_values(net, directed, g0, g1, all_reach, variants=variants)
             ctx.count("original-requeried-after-splits")
             for name, b in base_impl.items():
                 a2 = again.get(name)
@@ -518,7 +542,7 @@ def run(ctx):
                     not isinstance(b, tuple) and not isinstance(a2, tuple) and a2 is not None
                     and len(a2) == len(b) and all(
                         close(x, y, 1e-6 if "@oracle" in name else 1e-13,
-                              vec_floor(b, a2, scaled)) or (x != x and y != y)
+                              vec_floor(b, a2, scaled, name)) or (x != x and y != y)
                         for x, y in zip(b, a2)))
                 if not same:
                     ctx.fail({"kind": "original-changed-by-splitting", "measure": name.split("@")[0]},
@@ -608,13 +632,18 @@ def run(ctx):
     extras(ctx)
 
 
-def vec_floor(b, s, vec_rel):
-    """on graphs whose weights were rescaled by a power of two the measures scale with them:
-    entries are compared relative to the largest entry of the vector"""
+def vec_floor(b, s, vec_rel, name=""):
+    """on graphs whose weights were rescaled by a power of two `c` (= vec_rel) the measures
+    scale with them: entries are compared relative to the largest entry of the vector, and
+    the betweenness-type measures (homogeneous of degree 2 in the weights, computed with
+    cancellation) relative to c**2, which is where their rounding noise lives"""
     if not vec_rel:
         return 1.0
     fin = [abs(x) for x in list(b) + list(s) if x == x and abs(x) != float("inf")]
-    return max([1.0] + fin)
+    fl = max([1.0] + fin)
+    if vec_rel > 1 and "betweenness" in name:
+        fl = max(fl, float(vec_rel) ** 2)
+    return fl
 
 
 def oracle(ctx, base, spl, n, v, p, A, directed, w, Wroot, g0, extra_replay=None,
@@ -641,7 +670,7 @@ def oracle(ctx, base, spl, n, v, p, A, directed, w, Wroot, g0, extra_replay=None
             continue
         ok = True
         tol = 1e-6 if "@oracle" in name else 1e-9      # iterative solvers
-        fl = vec_floor(b, s, vec_rel)
+        fl = vec_floor(b, s, vec_rel, name)
         if len(b) == 1:
             ok = close(b[0], s[0], tol) or (b[0] != b[0] and s[0] != s[0])
         elif len(b) == n:
@@ -677,7 +706,7 @@ def oracle_map(ctx, base, spl, n, orig, A, directed, w, extra, vec_rel=False):
         if s is None or isinstance(b, tuple) or isinstance(s, tuple):
             continue
         tol = 1e-6 if "@oracle" in name else 1e-9
-        fl = vec_floor(b, s, vec_rel) if len(b) > 1 else 1.0
+        fl = vec_floor(b, s, vec_rel, name) if len(b) > 1 else 1.0
         eq = lambda x, y: close(x, y, tol, fl) or (x != x and y != y)   # noqa
         ok = True
         if len(b) == 1:
